@@ -4,7 +4,7 @@
    Witnesses for the hypotheses: Foam/Current.v (ex_node_wf, ex_node_not_canonical,
    ex_node_roundtrip, ex_sint_min, ex_lunit_wf, ex_hdr_wf). *)
 Require Import ZArith List.
-Require Import AV.Foam.Buf AV.Foam.Syntax AV.Foam.Codec AV.Foam.LibHdr AV.Gen.FoamInfo AV.Foam.Current.
+Require Import AV.Foam.Buf AV.Foam.Syntax AV.Foam.Codec AV.Foam.SExpr AV.Foam.SLex AV.Foam.LibHdr AV.Gen.FoamInfo AV.Foam.Current.
 Import ListNotations.
 Local Open Scope Z_scope.
 
@@ -53,3 +53,28 @@ Theorem sections_contiguous : forall u : lunit,
      get_section LP (mk_hdr LP u) (write_lib LP u) n = Content c).
 Proof. exact sections_contiguous_current. Qed.
 Print Assumptions sections_contiguous.
+
+(* ---- the text form (.fm).  Witnesses: Current.ex_text_wf, ex_text_not_canonical, ex_text_roundtrip. *)
+
+(* foamFrSExpr (sxiRead (text of n)) = n with the 'w' field (syme index) of every Decl at -1 (the
+   writer prints -1 there; a GDecl keeps its return type), for every tree, whatever follows in the token stream and whatever the
+   identifier context (the fex variables) the writer is in *)
+Theorem sexpr_roundtrip : forall (c : ctx) (n : node) (rest : list token),
+  wf_text FP TP n = true -> rd FP TP (wr FP TP c n ++ rest) = Some (tcanon FP n, rest).
+Proof. exact sexpr_roundtrip_current. Qed.
+Print Assumptions sexpr_roundtrip.
+
+(* re-saving a loaded .fm reproduces it token for token (identifier symbols included) *)
+Theorem resave_text : forall (c : ctx) (n : node),
+  wf_text FP TP n = true -> wr FP TP c (tcanon FP n) = wr FP TP c n.
+Proof. exact resave_text_current. Qed.
+Print Assumptions resave_text.
+
+(* the spelling of the atoms: integers of any width and strings with any bytes read back as written *)
+Theorem int_atom_roundtrip : forall z : Z, rd_int (pr_int z) = Some z.
+Proof. exact rd_pr_int. Qed.
+Print Assumptions int_atom_roundtrip.
+
+Theorem str_atom_roundtrip : forall (s rest : bytes), rd_str (pr_str s ++ rest) = Some (s, rest).
+Proof. exact rd_pr_str. Qed.
+Print Assumptions str_atom_roundtrip.
